@@ -6,6 +6,7 @@ from harness import c02 as C2
 from harness import c05 as C5
 from harness import c08 as C8
 from harness import c04 as C4
+from harness import c06 as C6
 
 PROPERTY = 'C17'
 ASSUMPTIONS = [
@@ -470,6 +471,8 @@ HARNESSES = [
     H('h17_8_filters', h_filters, lambda tier: [dict(elfclass=c, little=l, machine=m, osabi=o) for (c, l) in ((64, True), (32, False)) for m in MACHINES for o in ((None,) if m else (None, 'ELFOSABI_SOLARIS'))], expect=('ok',), decoy=-1,
       desc='a name selects its code through the accessors that filter by type name: iter_segments(type=), iter_sections(type=), Dynamic.iter_tags(type=) given the name an entry is reported under yield exactly the entries '
            'reported under it, for every code the registries name for the field in the processor / OS context (ground instances: one file per context with one entry per code)'),
+    H('h17_9_call_frame_instruction_names', C6.h_instr, lambda tier: [c for c in C6._instr_instances(tier) if not c.get('pre')], expect=('ok', 'rejected'),
+      desc='call-frame instruction codes in entries are reported under their registry names: every opcode byte (the three primary opcodes with a symbolic 6-bit operand: all 64 values) through instruction_name (harness shared with C06)'),
     H('h17_2_tables', h_tables, lambda tier: [dict(table=i) for i in range(0, 90)], expect=('ok',),
       desc='every exported (name, value) pair whose name a registry defines: value equals a registry value (ground obligations)'),
 ]
